@@ -67,7 +67,9 @@ EXTRA_HEAD = {
  1: "From EPD Require Import Hal HalSat HalProofs Ctl.Ctl Pure.Graphics Pure.GraphicsProofs Proof.Pixel.\n",
  5: "From EPD Require Import Hal HalSat HalProofs.\n",
  11: "From EPD Require Import Hal HalSat HalProofs.\n",
- 12: "From EPD Require Import Hal Ctl.Ctl Spec.Checks.\n",
+ 9: "From EPD Require Import Ctl.Ctl Spec.Oracle Proof.Book.\n",
+ 12: "From EPD Require Import Hal Ctl.Ctl Spec.Checks Spec.Oracle Proof.Book.\n",
+ 17: "From EPD Require Import Ctl.Ctl Spec.Oracle Proof.Book.\n",
 }
 EXTRA = {
  1: '''
@@ -147,7 +149,36 @@ Theorem C11_no_traffic_while_reset_low : forall cfg rho t d w,
   match expand cfg rho t d w with (_, _, _, evs) => rst_scan false evs = (true, false) end.
 Proof. exact expand_rst. Qed.
 ''',
+ 9: '''
+(** "The driver's own bookkeeping of the panel's power state never diverges from the controller's": the
+    1.02in driver caches the booster state in [is_turned_on]; after EVERY history the cached flag equals
+    the controller model's power state (checked on every state of the closed set, lifted by
+    [Book.invariant_after_every_history]).  No other trait driver keeps such a flag. *)
+Theorem C09_power_flag_never_diverges :
+  exists s0, fst (p_new (fst c1in02) (spec_of (snd c1in02))) = Some s0 /\\
+  forall h, valid_history (snd c1in02) h ->
+    is_on (v_d (p_run (fst c1in02) (spec_of (snd c1in02)) s0 h)) = c_on (o_c (v_o (p_run (fst c1in02) (spec_of (snd c1in02)) s0 h))).
+Proof. exact power_flag_never_diverges. Qed.
+''',
+ 17: '''
+(** On the drivers that persist the selection (type A 1.54in / 2.9in with both LUT features, 1.54in V2, 4.2in)
+    the driver's [refresh] field equals the mode last selected with set_lut(Some _) after EVERY history:
+    the selection survives reloads, displays, sleep and wake-up. *)
+Theorem C17_selected_mode_is_sticky : forall c, In c sticky_cfgs ->
+  In c cfgs /\\
+  exists s0, fst (p_new (fst c) (spec_of (snd c))) = Some s0 /\\
+  forall h, valid_history (snd c) h -> forall r,
+    o_sel (v_o (p_run (fst c) (spec_of (snd c)) s0 h)) = Some r -> refresh (v_d (p_run (fst c) (spec_of (snd c)) s0 h)) = r.
+Proof. exact selected_mode_is_sticky. Qed.
+''',
  12: '''
+(** No driver but the 2.9in D keeps a reference to a caller's buffer between calls: after EVERY history the
+    driver state holds none. *)
+Theorem C12_no_buffer_reference_kept : forall c, In c cfgs -> snd c <> P2in9d ->
+  exists s0, fst (p_new (fst c) (spec_of (snd c))) = Some s0 /\\
+  forall h, valid_history (snd c) h -> old (v_d (p_run (fst c) (spec_of (snd c)) s0 h)) = None.
+Proof. exact no_buffer_reference_kept. Qed.
+
 (** What the clause means for the bytes on the wire: the denotation of a data expression depends on
     the environment only at the (call, argument) pairs it names; so a call whose transport calls name
     only its own call index transmits the same bytes under any two environments that agree on that
